@@ -9,7 +9,10 @@ observed fewer cases than its floor makes its shard fail => INCONCLUSIVE):
   totality               _parse_header / parse_cookie / _unquote_cookie / split_host_and_port
                          return for every str
   header_rt              _parse_header(_encode_header(k, p)) == (k, p) for token-valued params
-  timestamp              format_timestamp output is an IMF-fixdate that reads back as the instant
+  timestamp              format_timestamp output is an IMF-fixdate that reads back as the instant; a quarter of
+                         the cases are HISTORIES of 2-6 calls whose instants lie within ~2 s of each other
+                         (same second / either side of a whole-second boundary, all argument types), each
+                         call judged on its own (mechanism suffix -after-earlier-calls)
   url_concat             query pairs of result == old pairs ++ args; other components unchanged
   re_unescape            re_unescape(re.escape(s)) == s
   is_valid_ip            plain IPv4/IPv6 text forms accepted; host names, "", NUL rejected
@@ -56,7 +59,8 @@ ASSUMPTIONS = [
 ]
 REQUIRED_COUNTERS = ["oracle_evals", "reqline_must_accept", "reqline_must_reject", "status_must_accept",
                      "status_must_reject", "reqline_must_reject_non_octet", "status_must_reject_non_octet", "totality_calls", "header_rt_evals", "timestamp_evals",
-                     "url_concat_evals", "re_unescape_evals", "ip_must_accept", "ip_must_reject"]
+                     "url_concat_evals", "re_unescape_evals", "ip_must_accept", "ip_must_reject",
+                     "timestamp_histories", "timestamp_hist_straddle_lt_1s", "timestamp_hist_same_second"]
 
 # ---------------------------------------------------------------------------------------------
 # shards
@@ -146,6 +150,10 @@ def directed_cases():
     yield ("statusline", "HTTP/1.1 200 OK")
     yield ("statusline", "HTTP/1.1 \u0662\u0660\u0660 OK")
     yield ("statusline", "HTTP/1.1 200 OK\n")
+    # call histories: each format_timestamp result stands on its own whatever was formatted just before
+    yield ("timestamp", ("hist", 1359312200, (("float", 1359312200.75), ("float", 1359312201.25), ("int", 1359312201),
+                                              ("float", 1359312200.5), ("naive", 1359312201, 250000, None))))
+    yield ("timestamp", ("hist", 86399, (("int", 86399), ("float", 86399.9990234375), ("float", 86400.0), ("struct", 86399))))
 
 
 def finish_shard(spec, ctx):
@@ -659,7 +667,47 @@ BOUNDARY_T = [0, 1, 59, 60, 86399, 86400, 951782400, 951868800, 2 ** 31 - 1, 2 *
               MAXT, MAXT - 1, 1359312200, 68169599, 68169600]
 
 
+HIST_DELTAS = [0.0, 0.0009765625, 0.25, 0.5, 0.75, 0.9990234375, 1.0, 1.25, 1.5, 2.0]
+
+
+def gen_timestamp_history(rng):
+    """A HISTORY of format_timestamp calls whose instants lie close together (same second, adjacent seconds, either
+    side of a whole-second boundary, ascending / descending / repeated), in mixed argument types. Every call is judged
+    on its own: whatever an earlier call left behind (a memo, a cache) must not change a later result."""
+    r = rng.random()
+    if r < 0.15:
+        t0 = rng.choice(BOUNDARY_T)
+    elif r < 0.8:
+        t0 = rng.randint(2, 2 ** 32)
+    else:
+        t0 = rng.randint(2, MAXT - 8)
+    t0 = min(max(t0, 2), MAXT - 8)
+    # position inside the second from which the walk starts
+    x = Fraction(t0) + Fraction(rng.choice([0, 0, 1, 256, 512, 717, 768, 1000, 1023, rng.randrange(1024)]), 1024)
+    steps = []
+    direction = rng.choice([1, 1, 1, -1, 0])
+    for _ in range(rng.randint(2, 6)):
+        kind = rng.choice(["float", "float", "float", "int", "naive", "aware", "struct", "tuple"])
+        sec = int(x // 1)
+        if kind == "float":
+            steps.append(("float", float(x)))       # x has <= 10 fractional bits: exact in a double below 2**42
+        elif kind in ("naive", "aware"):
+            us = int((x - sec) * 1000000)
+            off = rng.choice([0, 60, -300, 330, 840, -720]) if kind == "aware" else None
+            steps.append((kind, sec, us, off))
+        else:
+            steps.append((kind, sec))
+        d = Fraction(rng.choice(HIST_DELTAS + [rng.randrange(2048) / 1024.0]))
+        sign = direction if direction else rng.choice([1, -1])
+        x = x + sign * d
+        if x < 1 or x > MAXT - 2:
+            x = Fraction(t0)
+    return ("hist", t0, tuple(steps))
+
+
 def gen_timestamp(rng):
+    if rng.random() < 0.25:
+        return gen_timestamp_history(rng)
     r = rng.random()
     if r < 0.1:
         t = rng.choice(BOUNDARY_T)
@@ -682,7 +730,36 @@ _EPOCH = datetime.datetime(1970, 1, 1, tzinfo=datetime.timezone.utc)
 
 
 def run_timestamp(case, ctx):
+    if case[0] == "hist":
+        ctx.count("timestamp_histories")
+        prev = None
+        for i, step in enumerate(case[2]):
+            if prev is not None:
+                a, b = _step_instant(prev), _step_instant(step)
+                if a // 1 != b // 1 and abs(a - b) < 1:
+                    ctx.count("timestamp_hist_straddle_lt_1s")
+                elif a // 1 == b // 1:
+                    ctx.count("timestamp_hist_same_second")
+            prev = step
+            if not run_timestamp_one(step, ctx, i, case):
+                return
+        return
+    run_timestamp_one(case, ctx, 0, None)
+
+
+def _step_instant(step):
+    if step[0] == "float":
+        return Fraction(step[1])
+    if step[0] in ("naive", "aware"):
+        return Fraction(step[1]) + Fraction(step[2], 1000000)
+    return Fraction(step[1])
+
+
+def run_timestamp_one(case, ctx, pos, hist):
+    """Judge one format_timestamp call; pos > 0 = a later call of a history (same oracle, own mechanism keys).
+    Returns False after a violation."""
     kind = case[0]
+    sfx = "-after-earlier-calls" if pos else ""
     allowed = None
     if kind == "int":
         arg, want = case[1], case[1]
@@ -710,26 +787,28 @@ def run_timestamp(case, ctx):
     try:
         out = httputil.format_timestamp(arg)
     except Exception as e:  # noqa: BLE001
-        ctx.violation(f"timestamp/raises-{type(e).__name__}", "format_timestamp raised for a timestamp in 1970..9998",
-                      {"case": case, "arg": repr(arg), "error": repr(e)})
-        return
+        ctx.violation(f"timestamp/raises-{type(e).__name__}{sfx}", "format_timestamp raised for a timestamp in 1970..9998",
+                      {"case": case, "arg": repr(arg), "error": repr(e), "history": hist, "pos": pos})
+        return False
     got = read_imf_fixdate(out) if isinstance(out, str) else None
     if got is None:
-        ctx.violation("timestamp/not-imf-fixdate", "format_timestamp did not produce an IMF-fixdate (RFC 9110 §5.6.7)",
-                      {"case": case, "out": out})
-        return
+        ctx.violation("timestamp/not-imf-fixdate" + sfx, "format_timestamp did not produce an IMF-fixdate (RFC 9110 §5.6.7)",
+                      {"case": case, "out": out, "history": hist, "pos": pos})
+        return False
     if got not in allowed:
-        ctx.violation("timestamp/reads-back-as-another-instant", "formatted timestamp does not read back as the instant given",
-                      {"case": case, "arg": repr(arg), "out": out, "got": got, "want": sorted(allowed)})
-        return
+        ctx.violation("timestamp/reads-back-as-another-instant" + sfx, "formatted timestamp does not read back as the instant given",
+                      {"case": case, "arg": repr(arg), "out": out, "got": got, "want": sorted(allowed), "history": hist, "pos": pos})
+        return False
     try:
         back = email.utils.parsedate_to_datetime(out)
         ok = back.tzinfo is not None and int((back - _EPOCH).total_seconds()) == got
     except Exception:  # noqa: BLE001
         ok = False
     if not ok:
-        ctx.violation("timestamp/stdlib-parser-disagrees", "email.utils.parsedate_to_datetime does not read the timestamp back",
-                      {"case": case, "out": out})
+        ctx.violation("timestamp/stdlib-parser-disagrees" + sfx, "email.utils.parsedate_to_datetime does not read the timestamp back",
+                      {"case": case, "out": out, "history": hist, "pos": pos})
+        return False
+    return True
 
 
 # ---------------------------------------------------------------------------------------------
